@@ -185,9 +185,24 @@ Proof.
   unfold site_aborts in H. cbn [snd] in H. destruct (site_kw k) as [kw|]; [|discriminate]. eauto.
 Qed.
 
+(* ---- the only plugin function that picks the checked capability from its arguments is Channel._voice,
+        and its decision table is the one Model.voice_word mirrors ---- *)
+Definition EXPECTED_ARGDEP : list (str * str * str) :=
+  [([112;108;117;103;105;110;115;47;67;104;97;110;110;101;108;47;112;108;117;103;105;110;46;112;121], [95;118;111;105;99;101], [111;112;32;118;111;105;99;101])].
+(*  if nicks:  if len(nicks) == 1 and msg.nick in nicks: capability = 'voice'   else: capability = 'op'
+    else: nicks = [msg.nick] ; capability = 'voice' *)
+Definition EXPECTED_VOICE_ROWS : list (str * str * str) :=
+  [([110;105;99;107;115], [108;101;110;40;110;105;99;107;115;41;32;61;61;32;49;32;97;110;100;32;109;115;103;46;110;105;99;107;32;105;110;32;110;105;99;107;115], [99;97;112;97;98;105;108;105;116;121;32;61;32;39;118;111;105;99;101;39]);
+   ([110;105;99;107;115], [101;108;115;101], [99;97;112;97;98;105;108;105;116;121;32;61;32;39;111;112;39]);
+   ([101;108;115;101], [], [110;105;99;107;115;32;61;32;91;109;115;103;46;110;105;99;107;93;32;59;32;99;97;112;97;98;105;108;105;116;121;32;61;32;39;118;111;105;99;101;39])].
+Definition argdep_ok : bool :=
+  triples_eqb gen.T01.ARGDEP EXPECTED_ARGDEP && triples_eqb gen.T01.VOICE_ROWS EXPECTED_VOICE_ROWS.
+Lemma argdep_current : argdep_ok = true.
+Proof. vm_compute. reflexivity. Qed.
+
 Definition inventory_ok : bool :=
   wraps_ok gen.T01.WRAPS && catches_eqb gen.T01.CATCHES EXPECTED_CATCHES
   && pairs_eqb (callcmd_uses gen.T01.CALLSITES) EXPECTED_CALLCOMMAND_USES && defaults_ok gen.T01.DEFAULT_CAPS
-  && denial_shape_ok && nocap_sites_ok gen.T01.NOCAP_SITES.
+  && denial_shape_ok && nocap_sites_ok gen.T01.NOCAP_SITES && argdep_ok.
 Lemma inventory_current : inventory_ok = true.
 Proof. vm_compute. reflexivity. Qed.
